@@ -13,6 +13,8 @@ pub fn s_collect_match(s: &str) -> usize { let v: Vec<&str> = s.splitn(3, ' ').c
 pub fn s_slice_pat(s: &str) -> usize { let v: Vec<&str> = s.split(' ').collect(); match v.as_slice() { [] => 0, [a] => a.len(), [a, rest @ ..] => 100 + a.len() * 10 + rest.len() } }
 pub fn s_slice_pat_end(s: &str) -> usize { let v: Vec<&str> = s.split(' ').collect(); match v.as_slice() { [first, .., last] => 100 + first.len() * 10 + last.len(), [only] => only.len(), [] => 999 } }
 pub fn b_slice_pat(b: &[u8]) -> usize { match b { [b'P', rest @ ..] => 1000 + rest.len(), [x, .., y] => *x as usize + *y as usize, _ => 7 } }
+pub fn s_split_str_nth(s: &str) -> Option<&str> { s.split("ab").nth(1) }
+pub fn s_split_str_count(s: &str) -> usize { s.split("\r\n").count() }
 pub fn s_chars_pos(s: &str) -> Option<usize> { s.chars().position(|c| c == '\r') }
 pub fn s_chars_count(s: &str) -> usize { s.chars().count() }
 pub fn s_chars_all_digit(s: &str) -> bool { s.chars().all(|c| c.is_ascii_digit()) }
